@@ -1308,6 +1308,17 @@ class Repository:
             finally:
                 await chunk_producer
 
+        # Files that no chunk covers (all of the files are empty, so there are no
+        # chunks at all) still belong to the snapshot
+        for _, file in state.files:
+            if file.path not in snapshot_files:
+                snapshot_files[file.path] = {
+                    'path': file.path,
+                    'chunks': [],
+                    'digest': file.digest,
+                    'metadata': file.metadata,
+                }
+
         now = datetime.utcnow()
         snapshot_data = {
             'utc_timestamp': str(now),
@@ -1540,6 +1551,13 @@ class Repository:
 
                 files_sizes[file_path] = chunk_position
                 total_bytes += chunk_position
+
+                if not ordered_chunks:
+                    # No chunk download will ever complete this (empty) file
+                    del files_metadata[file_path]
+                    self._write_file_part(restore_to, b'', 0)
+                    os.truncate(restore_to, 0)
+                    self.restore_metadata(restore_to, file_data['metadata'])
 
         bytes_tracker = tqdm(
             desc='Data processed',
